@@ -45,6 +45,10 @@ type fakeZK struct{ w *world }
 
 func (z *fakeZK) LocateResource(r zk.ResourceName) (string, error) {
 	vrt.Yield("zk.Locate")
+	if !vrt.Active() {
+		vrt.HLock()
+		defer vrt.HUnlock()
+	}
 	if z.w.frozen || z.w.zkSilent {
 		vrt.Await("zk.silent", func() bool { return !z.w.frozen && !z.w.zkSilent })
 	}
@@ -71,6 +75,8 @@ func (r *simRC) String() string { return fmt.Sprintf("simRC#%d{%s}", r.id, r.add
 
 func (r *simRC) Dial(ctx context.Context) error {
 	vrt.Yield("rc.Dial")
+	vrt.HLock()
+	defer vrt.HUnlock()
 	if r.dialed {
 		if r.dead {
 			return region.ErrClientClosed
@@ -126,6 +132,8 @@ func (r *simRC) fail() {
 
 func (r *simRC) Close() {
 	vrt.Yield("rc.Close")
+	vrt.HLock()
+	defer vrt.HUnlock()
 	r.closedN++
 	if !r.dead {
 		r.fail()
@@ -210,6 +218,8 @@ func (r *simRC) answerOpt(c hrpc.Call, failOnServerError bool) (hrpc.RPCResult, 
 
 func (r *simRC) QueueRPC(c hrpc.Call) {
 	vrt.Yield("rc.QueueRPC")
+	vrt.HLock()
+	defer vrt.HUnlock()
 	if r.dead {
 		c.ResultChan() <- hrpc.RPCResult{Error: region.ErrClientClosed}
 		return
@@ -227,6 +237,8 @@ func (r *simRC) QueueRPC(c hrpc.Call) {
 
 func (r *simRC) QueueBatch(ctx context.Context, cs []hrpc.Call) {
 	vrt.Yield("rc.QueueBatch")
+	vrt.HLock()
+	defer vrt.HUnlock()
 	if ctx.Err() != nil {
 		return
 	}
@@ -281,6 +293,8 @@ func newWorld(cl *sim.Cluster, opts ...gohbase.Option) *world {
 	fn := func(addr string, ct region.ClientType, qs int, fi time.Duration, user string, rt time.Duration,
 		codec compression.Codec, d func(ctx context.Context, network, addr string) (net.Conn, error),
 		l *slog.Logger) hrpc.RegionClient {
+		vrt.HLock()
+		defer vrt.HUnlock()
 		rc := &simRC{w: w, addr: addr, id: len(w.rcs) + 1}
 		w.rcs = append(w.rcs, rc)
 		return rc
